@@ -986,13 +986,9 @@ def tables_exact(check, prog):
     ok = len(dr) == 1
     detail = ''
     if ok:
-        v = dr[0].value
-        cpy = intern(('call', ('attr', c, 'copy'), (), ()))
-        ok = v[0] == 'loop' and v[3] == cpy and v[4][0] == 'upd' and \
-            v[4][1][0] == 'phi' and v[4][4][0] == 'call' and v[4][4][1] == q and \
-            v[4][3][0] == 'idx' and v[4][3][2] == num(0) and \
-            v[4][4][2] == (('idx', v[4][3][1], num(1)),)
-        detail = 'returns %s' % show(v)[:160]
+        ok, detail, fresh = c01._dict_of_normalised(dr[0].value, c, q)
+        if ok and not fresh:
+            ok, detail = False, 'the values are stored into the caller\'s dictionary'
     check.require(ok, 'U1-polarisation-normalised', 'to_vector per-channel dictionary',
                   'a copy of the dictionary with every value normalised (the input '
                   'dictionary is not modified)', prog.loc(q, fd), fail_detail=detail)
